@@ -187,7 +187,7 @@ fn run_case(c: &Case) -> CaseOut {
                 let f = match o.as_str() {
                     "c02" if c.well_formed => oracles::c02_rescan(&c.input, &c.cfg),
                     "c03" if c.well_formed => oracles::c03_idempotent(&c.input, &c.cfg),
-                    "c07" => oracles::c07_regions(&c.input, &c.cfg),
+                    "c07" => oracles::c07_regions(&c.input, &c.cfg, c.well_formed),
                     "c08" => oracles::c08_canonical(&c.input, &c.cfg, c.well_formed),
                     "c09" => oracles::c09_line_endings(&c.input, &c.cfg),
                     "c10" if c.well_formed => oracles::c10_indentation(&c.input, &c.cfg),
